@@ -148,4 +148,4 @@ def nontrivial(req, ans):
 
 LEVEL = "proof"
 LEVEL_TEXT = ("Lean 4 theorems for ALL inputs, unbounded size and nesting. Primitive form: accepted exactly when not CER or at most 1000 octets, all views present the content (prim_accept_iff, prim_views); constructed in DER rejected (cons_der_reject). Views: for every captured content that parses (BER rules) into OCTET STRING values nested to any depth - incl. the pre-repair shape with the outer end-of-contents in the capture - the segment iterator yields exactly the primitive leaves in encoding order, octets/to_bytes their concatenation, len its length, is_empty accordingly, without panic or fuel exhaustion (views_eq_concat, octets_eq_osContent, len_eq_sum). As a decoding source: current ++ segments of the remainder is invariant and equals the unconsumed suffix of the content; request never fails, grants >= len whenever that much remains, advance drops exactly n (new_inv_*, request_inv, advance_inv, request_all). Re-encoding: DER writes identifier, minimal length, concatenated content and that parses as one primitive value with the same content; BER keeps the segmentation (write_der_ok, reencode_der_wellformed, write_ber_cons, reencode_ber_wellformed; C16b.ber_accept_reencode: EVERY constructed value accepted in BER - definite or indefinite outer form - holds captured octets that parse as a sequence of values, never with the end-of-contents marker, and re-encodes in BER as one well-formed definite-length constructed value with the same kids and the same content; reencode_ber_d12_shape is the kernel-checked witness of what the repaired defect D12 produced). BER constructed acceptance is characterised completely too (Props/C16b.lean, on the skip-machine theorems of C10 and the capture closed form): in a definite or indefinite BER parent the value is accepted exactly when the content parses into values that are OCTET STRING at EVERY depth (ber_def_accept_iff_spec, ber_indef_accept_iff_spec), a foreign tag at any depth or malformed nesting is rejected with a content error and never a panic (ber_reject, *_reject_foreign, *_reject_malformed), and every accepted value satisfies the hypothesis of the view theorems, so all its views present the concatenation of the primitive segments (ber_accept_views). CER constructed acceptance is characterised completely (cons_cer_accept_iff, cons_cer_accept_iff_spec: segments <= 1000 with only the last short, = the reference acceptance predicate; every failure a content error). Correspondence + oracles: forms of depth <= 4 in all modes, mutated forms, CER segment vectors over {0,1,999,1000,1001}, use as a source behind every script, re-encoding in BER and DER read back by the real decoder.")
-LEVEL_NOTE = ("Trusted: Lean 4.33 kernel; axioms propext, Classical.choice, Quot.sound only; the hand-written model (lean/Bcder/Model/Octet.lean) tied to /repo on every run by differential correspondence; reference osContent / osSegments / osAccept in lean/Bcder/Spec/Tlv.lean. NOT proved: that the BER skip loop of take_constructed_ber accepts exactly the OCTET-STRING-only trees (reduced in the file to C10's frame-free statements by capture_run0; covered by the correspondence check with foreign tags at every depth); cons_accept_captures_consumed (from C11) shows an accepted constructed value holds exactly the octets advanced over. The former known finding D12 is repaired (fix: commit in /repo); its witnesses are corpus cases.")
+LEVEL_NOTE = ("Trusted: Lean 4.33 kernel; axioms propext, Classical.choice, Quot.sound only; the hand-written model (lean/Bcder/Model/Octet.lean) tied to /repo on every run by differential correspondence; reference osContent / osSegments / osAccept in lean/Bcder/Spec/Tlv.lean. Which constructed encodings take_constructed_ber accepts is C16b (ber_def_accept_iff_spec, ber_indef_accept_iff_spec: exactly the well-formed values whose every identifier at every depth is OCTET STRING; ber_*_reject_foreign / _malformed; built on C10 and capture_run0), with the model's loop budgets as explicit hypotheses (Rust has none; hdrsL ts < fuel always suffices); cons_accept_captures_consumed (from C11) shows an accepted constructed value holds exactly the octets advanced over. The former known finding D12 is repaired (fix: commit in /repo); its witnesses are corpus cases.")
